@@ -33,7 +33,9 @@ func specials() []special {
 	inner := &MyInner{X: 3, Y: "in"}
 	return []special{
 		{Name: "two-params-order", Src: `h.Multi2(-5, "x")`, Want: `"-5|x"`, Calls: `Multi2(-5,"x")`},
-		{Name: "two-params-same-kind-order", Src: `h.MultiRet(3, "q")`, Want: `["q", 3, 0.5]`, Calls: `MultiRet(3,"q")`},
+		{Name: "two-params-one-type-order", Src: `h.SameType2(10, 3)`, Want: `7`, Calls: `SameType2(10,3)`},
+		{Name: "four-params-one-type-order", Src: `h.SameType4("a", "b", "c", "d")`, Want: `"abcd"`, Calls: `SameType4("a","b","c","d")`},
+		{Name: "two-params-two-types-order", Src: `h.MultiRet(3, "q")`, Want: `["q", 3, 0.5]`, Calls: `MultiRet(3,"q")`},
 		{Name: "four-params", Src: `h.Multi3(["a", "b"], {"k": 1.5}, p, 9)`, Want: `12`, Calls: `Multi3(["a" "b"],1,true,9)`,
 			Setup: func(g map[string]any) { g["p"] = inner },
 			After: func(h *Host, g map[string]any) (string, string) {
